@@ -24,6 +24,9 @@ CLAIMED = {
  "C15": ("Coq proof (refinement of an ideal allocator by simulation, induction over operation histories, size_t arithmetic mod 2^64) + history correspondence against the real uriCompleteMemoryManager",
          "Theorems for every finite history of malloc/calloc/realloc/reallocarray/free with arbitrary size_t arguments and any backend failure plan: the decorated manager refines the ideal allocator; every backend block is released exactly once with the backend's own pointer; nothing stays allocated once the caller freed everything. Tied to src/UriMemory.c by random and enumerated histories over a logging, failure-injecting backend.",
          TB, "5 C15"),
+ "C20": ("Coq proof (schedule independence and race freedom of footprint-disciplined programs, induction over the schedule) + symbol-table scan, thread digests and ThreadSanitizer on the freshly built library",
+         "Theorems for every program, store and schedule: if each step changes only locations its thread owns and depends only on those and on shared read-only ones, every interleaving gives each thread exactly its solo-run view, shared inputs never change and no location is accessed by two threads with a writer among them. Partial by nature: that the C functions are disciplined is observed, not proved: writable symbols of the built objects (known finding D11: defaultMemoryManager), 8-16 threads sharing a base URI, a query list and the input strings with per-thread digests equal to the single-threaded run, the same under ThreadSanitizer.",
+         TB + " The model's operations are Gallina functions of their arguments, so they have no hidden state by construction; data races and writable globals are properties of the compiled code.", "5 C20"),
  "C16": ("Coq proof (structural induction with the prevWasCr state; finite sweeps for hex helpers; cursor-level refinement for in-place unescaping) + exhaustive short-string correspondence",
          "Theorems for all texts: output alphabet, 3x/6x bound, unescape(escape x) = x (CRLF-normalised if requested) for all x over 1..255, unescape never lengthens, equals the tokenising specification, and the cursor-level in-place loop refines the pure function without writing past the terminator. Tied to src/UriEscape.c by exhaustive short strings, token sequences and random long strings x all flags on char/wchar_t, plain/ASan.",
          TB + " Partial in one respect: an actual write past the caller's buffer is runtime behaviour (ASan exact-size buffers, canaries).", "5 C16"),
